@@ -381,7 +381,42 @@ func judge(ps progSpec, state string, fname string, frame []byte, res *cplane.Re
 	}
 	if !hit {
 		run.Violation("bpf/nat44.c:"+ps.prog, "pass-leaves-frame-untouched", "modified-without-nat-state-match", fmt.Sprintf("%s returned %d after changing frame bytes at offset %d although no NAT state lookup matched", ps.prog, v, fd), wit())
+		return
 	}
+	// ... and a NAT flow is a frame whose transport header is there to be translated: a frame cut inside its
+	// TCP/UDP/ICMP header cannot be translated, so it is other traffic and must be handed on as it came
+	if known, complete, proto, have, need := natFlowComplete(frame); known {
+		run.Count("nat_modified_frames_judged_for_complete_transport_header", 1)
+		if !complete {
+			run.Violation("bpf/nat44.c:"+ps.prog, "pass-leaves-frame-untouched", fmt.Sprintf("modified-frame-cut-inside-transport-header/proto-%d", proto),
+				fmt.Sprintf("%s returned %d after changing frame bytes at offset %d of a frame that carries only %d of the %d transport header bytes (IP protocol %d): a half-translated frame is handed on [%s, %d bytes, maps %s]", ps.prog, v, fd, have, need, proto, fname, len(frame), state), wit())
+		}
+	}
+}
+
+// natFlowComplete: independent parse of an untagged IPv4 frame: does it carry its complete TCP/UDP/ICMP header?
+func natFlowComplete(frame []byte) (known, complete bool, proto byte, have, need int) {
+	if len(frame) < 34 || frame[12] != 0x08 || frame[13] != 0x00 || frame[14]>>4 != 4 {
+		return
+	}
+	ihl := int(frame[14]&0x0f) * 4
+	if ihl < 20 {
+		return
+	}
+	proto = frame[23]
+	switch proto {
+	case 6:
+		need = 20
+	case 17, 1:
+		need = 8
+	default:
+		return
+	}
+	have = len(frame) - 14 - ihl
+	if have < 0 {
+		have = 0
+	}
+	return true, have >= need, proto, have, need
 }
 
 func passClass(fname string, frame []byte) string {
